@@ -134,7 +134,17 @@ def judgeBufStep (mode : Nat) (j : JB) (prev0 next : Step) (ln txt : Bytes) : JB
            | none => [])
         else [])
   -- ---------- C03: writes
-  let isWrite := base == "w" || base == "wq" || base == "x" || base == "xa"
+  -- `:w !cmd` pipes the text to a command: it writes no file and saves nothing
+  let isPipe := arg.headD 0 == 33
+  let isWrite := (base == "w" || base == "wq" || base == "x" || base == "xa") && !isPipe
+  let e02pipe := if mode == 2 && single && base == "w" && isPipe then
+      (match pc, pc.bind (fun p => bufById next p.id) with
+       | some p, some b => if p.dirty && !b.dirty then
+           [s!"clause=pipe_write_saves_nothing {str ln} marked buffer {b.id} clean"] else
+           if p.path != b.path then [s!"clause=pipe_write_saves_nothing {str ln} renamed the buffer to {str b.path}"] else []
+       | some p, none => [s!"clause=pipe_write_saves_nothing {str ln} lost buffer {p.id}"]
+       | _, _ => [])
+    else []
   let e03 := if mode != 3 || !single || !isWrite then [] else
     match pc with
     | none => []
@@ -173,7 +183,7 @@ def judgeBufStep (mode : Nat) (j : JB) (prev0 next : Step) (ln txt : Bytes) : JB
       ++ (if base != "w" && next.quit && own && cb.dirty && after != some cb.text && base != "xa" then
             [s!"clause=success_exact {str ln}: quit after writing but the file differs from the buffer"] else [])
   -- ---------- bookkeeping of the ghosts
-  let j := { j with errs := j.errs ++ mut_errs ++ e02a ++ e02b ++ e20.take 2 ++ e03 }
+  let j := { j with errs := j.errs ++ mut_errs ++ e02a ++ e02b ++ e02pipe ++ e20.take 2 ++ e03 }
   let j := if single && base == "se" then
       (let a := str arg
        { j with wa := if a == "wa" then true else if a == "nowa" then false else j.wa,
@@ -213,15 +223,15 @@ def judgeBufStep (mode : Nat) (j : JB) (prev0 next : Step) (ln txt : Bytes) : JB
       -- content after the line is what the editor last wrote
       let segs := (str ln).splitOn "|"
       let lineHasWrite := !single && segs.any (fun sg =>
-        let (_, c, _) := splitCmd (byt sg)
+        let (_, c, a) := splitCmd (byt sg)
         let c := (str c).replace "!" ""
-        c == "w" || c == "wq" || c == "x" || c == "xa")
+        (c == "w" || c == "wq" || c == "x" || c == "xa") && a.headD 0 != 33)
       -- what the file held just before the command (harness directives applied)
       let beforeOwn := match j.fs.over.find? (·.1 == b.path) with | some o => o.2 | none => fileOf prev b.path
       let ownWrite := segs.any (fun sg =>
         let (_, c, a) := splitCmd (byt sg)
         let c0 := (str c).replace "!" ""
-        (c0 == "w" || c0 == "wq" || c0 == "x" || c0 == "xa") && (a.isEmpty || a == b.path))
+        (c0 == "w" || c0 == "wq" || c0 == "x" || c0 == "xa") && a.headD 0 != 33 && (a.isEmpty || a == b.path))
       if lineHasWrite && msg.contains "[w]" && (fileOf next b.path != beforeOwn || ownWrite) then
         let j := if fileOf next b.path != beforeOwn then
             setGhost j { g with disk := some ((fileOf next b.path).getD b.text), savedAt := some b.histU }
